@@ -86,7 +86,8 @@ PANIC_WORDS = ("overflow", "shift", "index out of bounds", "unwrap", "unreachabl
 
 def prepare(unit, repo):
     src = os.path.join(VERIF, "units", unit)
-    dst = os.path.join(CACHE, unit)
+    # one crate copy per source tree, so that a run against a scratch copy (bin/seedrun --scratch) cannot disturb a check of /repo
+    dst = os.path.join(CACHE, unit if repo == "/repo" else unit + "-" + hashlib.sha256(repo.encode()).hexdigest()[:8])
     os.makedirs(dst, exist_ok=True)
     with open(os.path.join(src, "Cargo.toml.in")) as f:
         toml = f.read().replace("@REPO@", repo)
